@@ -81,11 +81,12 @@ type Corruption struct {
 }
 
 type Exchange struct {
-	Op  int
-	Q   Request
-	R   Response
-	Bad string // SpecCheck verdict ("" = allowed)
-	Hit bool   // this response was corrupted
+	Op         int
+	Q          Request
+	R          Response
+	Bad        string // SpecCheck verdict ("" = allowed)
+	Hit        bool   // this response was corrupted
+	OrigStatus int    // status before the corruption
 }
 
 type kv struct {
@@ -154,6 +155,10 @@ func ip(i int64) *int64   { return &i }
 
 func resp0(st int) Response   { return Response{Status: st, CLen: ip(0)} }
 func respErr(st int) Response { return Response{Status: st} }
+
+// NameUnknown is the one error code the client distinguishes on a 404; in the abstract
+// response it travels as the body of the error response (as in Model/Registry.v).
+const NameUnknown = "NAME_UNKNOWN"
 
 const ctOctet = "application/octet-stream"
 const mtIndex = "application/vnd.oci.image.index.v1+json"
@@ -366,7 +371,7 @@ func (g *Registry) handle(q Request) Response {
 		}
 		return respErr(405)
 	}
-	return respErr(404)
+	return Response{Status: 404, Body: []byte(NameUnknown)}
 }
 
 func corrupt(k *Corruption, r *Response) {
@@ -394,6 +399,9 @@ func corrupt(k *Corruption, r *Response) {
 		r.Status = n
 	case "loc-drop":
 		r.Loc = nil
+	case "name-unknown":
+		r.Status = 404
+		r.Body = []byte(NameUnknown)
 	}
 }
 
@@ -532,7 +540,10 @@ func (g *Registry) concrete(req *http.Request, r Response) *http.Response {
 		}
 		b, _ = json.Marshal(idx)
 	}
-	if r.Status >= 400 && len(b) == 0 {
+	if r.Status >= 400 && string(b) == NameUnknown {
+		b = []byte(`{"errors":[{"code":"NAME_UNKNOWN","message":"repository name not known to registry"}]}`)
+		resp.Header.Set("Content-Type", "application/json")
+	} else if r.Status >= 400 {
 		code := map[int]string{400: "DIGEST_INVALID", 404: "NOT_FOUND", 405: "UNSUPPORTED", 416: "RANGE_INVALID"}[r.Status]
 		if code == "" {
 			code = "UNKNOWN"
@@ -589,12 +600,13 @@ func (g *Registry) Do(req *http.Request) (*http.Response, error) {
 	}
 	r := g.handle(q)
 	hit := false
+	orig := r.Status
 	if g.Corrupt != nil && g.Corrupt.K == g.N {
 		corrupt(g.Corrupt, &r)
 		hit = true
 	}
 	g.N++
-	g.Log = append(g.Log, Exchange{Op: g.CurOp, Q: q, R: r, Bad: bad, Hit: hit})
+	g.Log = append(g.Log, Exchange{Op: g.CurOp, Q: q, R: r, Bad: bad, Hit: hit, OrigStatus: orig})
 	resp := g.concrete(req, r)
 	if g.WarnEvery > 0 && g.N%g.WarnEvery == 0 {
 		t1 := fmt.Sprintf("verif warning %d", g.N)
@@ -660,7 +672,10 @@ func ShowReq(q Request) string {
 func ShowResp(r Response) string {
 	cl, b, loc, ar := oint(r.CLen), hx(string(r.Body)), "-", "0"
 	if r.Status >= 400 {
-		cl, b = "-", "-"
+		cl = "-"
+		if string(r.Body) != NameUnknown {
+			b = "-"
+		}
 	}
 	if r.Loc != nil {
 		loc = hx(r.Loc.Repo) + "+" + r.Loc.EP.String()
